@@ -457,6 +457,12 @@ func cmdCheck(args []string) int {
 			for r, n := range R.InconclusiveReasons {
 				fmt.Printf("   inconclusive x%d: %s\n", n, r)
 			}
+			if R.Truncated {
+				fmt.Printf("   path budget of %d exhausted: the exploration is incomplete (reduce the bound or raise paths=)\n", cfg.MaxPaths)
+			}
+			if R.Unknown > 0 {
+				fmt.Printf("   %d solver answers were unknown/timeout\n", R.Unknown)
+			}
 			if len(ev.MissingCovers) > 0 {
 				fmt.Printf("   missing vacuity witnesses: %v\n", ev.MissingCovers)
 			}
